@@ -6,7 +6,10 @@ RULE = ("cases = corpus (D6 reproducers) + seeded malformed streams: single-fiel
         "offsets, array/bitset/run payload incl. zero runs and run overflow, truncation at/next to field boundaries, "
         "extension, bit flips) and short random byte strings; checked decoder only; on ok the harness evaluates every "
         "observer of the value (wf=), the model its WF predicate; non-trivial = any case whose stream has a run cookie or "
-        "whose decode is accepted; distinct by SHA-1 of the ops")
+        "whose decode is accepted; distinct by SHA-1 of the ops. 64-bit half (profile C13T): corruptions of valid portable "
+        "streams (count too small / too big / 2^63 / u64::MAX, keys swapped / duplicated / random, buckets reordered, empty "
+        "inner bitmap replaced / added / with a duplicate key, one inner stream corrupted by the 32-bit corruptions, "
+        "truncation, extension, bit flips) and random byte strings against RoaringTreemap::deserialize_from")
 
 
 def oracle(op, impl, model):
@@ -14,7 +17,7 @@ def oracle(op, impl, model):
     err is always allowed (a stricter decoder); ok only with a value all of whose observers agree (wf=true) and,
     when the model also accepts, the same number of unread bytes (never reads past the declared structure);
     panic, wf=false, or a different value (dump lines) never."""
-    if not op.startswith("deser"):
+    if not op.startswith(("deser", "tdeser")):
         return False
     if impl == "err":
         return True
@@ -26,13 +29,14 @@ def oracle(op, impl, model):
 
 
 CFG = {
-    "gen_profiles": ["C13"],
-    "cases": {"quick": 1200, "thorough": 12000},
+    "gen_profiles": ["C13", "C13T"],
+    "cases": {"quick": 2400, "thorough": 24000},
     "compare": "full",
     "oracle": oracle,
     "model_def": "Roaring.deserialize (lean/RoaringModel/Ser.lean: decodeHeader / decodeStore / deserializeG)",
     "rule": RULE,
-    "nontrivial": lambda body, mout: any("hex:3b30" in op[:40] for op in body) or any(o.startswith("ok rest") for o in mout),
+    "nontrivial": lambda body, mout: any("hex:3b30" in op[:40] for op in body) or any(o.startswith("ok rest") for o in mout)
+                  or any(op.startswith("note corruption=") and "cookie=run" in op for op in body),
     "targets": {
         "corrupted stream rejected": r"^deser chk .* => err$",
         "corrupted stream accepted as a well-formed value": r"^deser chk .* => ok rest=\d+ wf=true",
@@ -51,12 +55,26 @@ CFG = {
         "extension": r"^note corruption=extended ",
         "random byte strings": r"^note random-bytes",
         "reference decoders reject": r"^spec_decode .* => err$",
+        "64-bit: corrupted stream rejected": r"^tdeser chk .* => err$",
+        "64-bit: corrupted stream accepted as a well-formed value": r"^tdeser chk .* => ok rest=\d+ wf=true",
+        "64-bit: count too small (rest left unread)": r"^note corruption=count-small ",
+        "64-bit: count larger than the data (incl. 2^63, u64::MAX)": r"^note corruption=count-big ",
+        "64-bit: neighbouring keys swapped (descending)": r"^note corruption=key-swap ",
+        "64-bit: duplicate key": r"^note corruption=key-dup ",
+        "64-bit: key corruption": r"^note corruption=key ",
+        "64-bit: buckets reordered": r"^note corruption=buckets-reordered ",
+        "64-bit: empty inner bitmap (replaced / added / duplicate key)": r"^note corruption=empty-bucket-",
+        "64-bit: inner stream corrupted (32-bit corruptions)": r"^note corruption=inner ",
+        "64-bit: truncation": r"^note corruption=truncated of parts=",
+        "64-bit: extension": r"^note corruption=extended of parts=",
+        "64-bit: reference decoders reject": r"^tspec_decode .* => err$",
     },
     "gaps": [
         'C13_no_panic and C13_reads_declared (rest is a suffix, value independent of it, shorter input is EOF) are proved in full for every byte string',
         'no proof gap: C13_32 (ok => Bitmap.WF value and rest is a suffix; error => not a panic) is proved unconditionally for every byte string; the former kernel hypothesis Kernel.runStore_wf is discharged (Lemmas/CodecKernel.lean: runStore_wf, from Store.insertRange_spec and Container.ensureCorrectStore_spec; an empty run list gives the empty array, which the checked decoder rejects); C13_reserialize: an accepted value has a strictly ascending u32 element list with chunk-wise membership and re-serialises to a stream that every decoder configuration decodes to the same value',
         "the corollary 'every observer of a WF value is consistent' rests on C01/C03/C04/C07 (other families)",
-        'the RoaringTreemap decoder is handled by the treemap family',
+        'RoaringTreemap::deserialize_from, no proof gap: C13_t_no_panic, C13_t_reads_declared, the lifting step C13_64_lift (if the checked 32-bit decoder only returns wf32 values, the checked treemap decoder only returns values with strictly ascending u32 keys whose partitions are wf32 and not the empty bitmap, the rest is a suffix, no panic) and the full statement C13_64 (ok => Treemap.WFd Bitmap.WF value (Treemap.TWF: keys strictly ascending u32s, every partition Bitmap.WF and non-empty) and rest is a suffix; error => not a panic; C13_64_statement_holds) are proved unconditionally for every byte string (the inherited 32-bit hypothesis Kernel.runStore_wf is discharged); C13_t_reserialize: an accepted treemap has a strictly ascending u64 element list with partition-wise membership and re-serialises to a stream that every decoder configuration decodes to the same value. The loop counter is the declared u64 count itself (structural recursion, no fuel): a count larger than the data ends in eof',
+        'accepted-but-not-conformant 64-bit streams (descending / repeated bucket keys: the map sorts them, a repeated key keeps the later bucket) yield well-formed values; C13 allows that outcome, it is pinned in corpus/C13/t-key-order.ops',
     ],
     "level_text": "Lean 4 theorems over the model of the checked decoder: for every byte string the result is an error or a "
                   "well-formed value together with a suffix of the input (never a panic, never a read past the declared "
@@ -64,6 +82,6 @@ CFG = {
                   "streams and random byte strings, with a property oracle that tolerates a stricter implementation.",
     "level_note": "Trusted: Lean kernel; Bitmap.WF (Inv.lean) as the meaning of 'well-formed set'; model mirrors "
                   "serialization.rs (correspondence only); the harness-side observer check `consistent()` as the reading of "
-                  "'every observer agrees'. 32-bit half only.",
+                  "'every observer agrees'.",
 }
 CFG["targets"] = {k: v for k, v in CFG["targets"].items() if v}
